@@ -737,6 +737,12 @@ func isSafeForReverseSuffix(re *syntax.Regexp) bool {
 				return false // Internal anchor - not safe
 			}
 		}
+		// A leading (?m)^ is as unrepresentable in the reverse NFA as an internal
+		// anchor (it becomes an epsilon edge): the reverse scan would run past the
+		// line start. A leading \A is fine (the searcher handles the anchored case).
+		if containsLineAnchor(re.Sub[0]) {
+			return false
+		}
 		return true
 
 	case syntax.OpCapture:
@@ -748,6 +754,19 @@ func isSafeForReverseSuffix(re *syntax.Regexp) bool {
 	default:
 		return false
 	}
+}
+
+// containsLineAnchor checks if the AST contains a multiline anchor ((?m)^ or (?m)$).
+func containsLineAnchor(re *syntax.Regexp) bool {
+	if re.Op == syntax.OpBeginLine || re.Op == syntax.OpEndLine {
+		return true
+	}
+	for _, sub := range re.Sub {
+		if containsLineAnchor(sub) {
+			return true
+		}
+	}
+	return false
 }
 
 // containsAnchor checks if AST contains any anchor (^, $, \A, \z)
